@@ -6,6 +6,7 @@ mod gen;
 mod rng;
 mod p15;
 mod hproj;
+mod p01;
 mod p02;
 mod p05;
 mod p04;
@@ -127,6 +128,7 @@ fn main() {
             p14::worker();
             return;
         }
+        "C01" => p01::run(&args),
         "C05" => p05::run(&args),
         "c05-worker" => {
             p05::worker();
